@@ -100,10 +100,12 @@ def show_fact(f):
 class Flow:
     """Edge-split CFG of one body with atoms on switch edges."""
 
-    def __init__(self, body, unwind=False):
+    def __init__(self, body, unwind=False, drop_debug=False):
+        """drop_debug: facts that stem from a `debug_assert!` expansion are not counted (they do not exist in release builds)"""
         self.body = body
         self.x = X(body)
         self.unwind = unwind
+        self.drop_debug = drop_debug
         self._edge_facts = {}
         self._idom = None
         self._pruned = set()
@@ -127,6 +129,9 @@ class Flow:
             return self._edge_facts[n]
         _, bi, k = n
         t = self.body.blocks[bi].term
+        if self.drop_debug and t.sp and len(t.sp) > 5 and any("debug_assert" in str(m) for m in (t.sp[5] or [])):
+            self._edge_facts[n] = []
+            return []
         e = self.x.operand(t.discr)
         out = []
         if t.dty == "bool":
